@@ -78,7 +78,21 @@ pub fn check(mut ctx: Ctx, replay: Option<J>) -> ! {
   };
   let inv_pos: Vec<Vec<J>> = types.iter().map(|t| vals.iter().map(|v| invoke(t, v, false)).collect()).collect();
   let inv_named: Vec<Vec<J>> = types.iter().map(|t| vals.iter().map(|v| invoke(t, v, true)).collect()).collect();
-  let rec = json!({"U": universe, "eq": eq, "cf": cf, "V": venc, "co": co, "co2": co2, "inv_pos": inv_pos, "inv_named": inv_named});
+  // outside the property: the operator `v instance of T` (1 true, 2 false, 0 other, 9 the type has no surface syntax)
+  let instance_of = |t: &FeelType, v: &dmntk_feel::values::Value| -> u8 {
+    let scope = dmntk_feel::Scope::default();
+    scope.set_entry(&Name::from("v"), v.clone());
+    match dmntk_feel_parser::parse_expression(&scope, &format!("v instance of {}", t), false) {
+      Ok(node) => match dmntk_feel_evaluator::evaluate(&scope, &node) {
+        Ok(dmntk_feel::values::Value::Boolean(true)) => 1,
+        Ok(dmntk_feel::values::Value::Boolean(false)) => 2,
+        _ => 0,
+      },
+      Err(_) => 9,
+    }
+  };
+  let io: Vec<Vec<u8>> = types.iter().map(|t| vals.iter().map(|v| instance_of(t, v)).collect()).collect();
+  let rec = json!({"U": universe, "eq": eq, "cf": cf, "V": venc, "co": co, "co2": co2, "inv_pos": inv_pos, "inv_named": inv_named, "io": io});
   // anti-vacuity: flip one conformance cell
   if replay.is_none() {
     let mut bad = rec.clone();
@@ -94,6 +108,14 @@ pub fn check(mut ctx: Ctx, replay: Option<J>) -> ! {
   let out = tlc.run(Run::new("Trace_C16", "Trace_C16.cfg").env("TRACE", &f.to_string_lossy()).timeout(3600));
   if !out.ok || out.counters("LAWS-EVALUATED").is_empty() {
     tool_error(&format!("Trace_C16 failed: {}", out.error_text));
+  }
+  // informational: behaviour outside the listed property
+  let extra = out.tagged("EXTRA");
+  ctx.cov("outside_property_instance_of_cells", json!(types.len() * vals.len()));
+  ctx.cov("outside_property_instance_of_disagreements", json!(extra.len()));
+  if let Some(e) = extra.first() {
+    let (i, k) = (e["i"].as_u64().unwrap_or(1) as usize, e["k"].as_u64().unwrap_or(1) as usize);
+    ctx.cov("outside_property_instance_of_example", json!(format!("{} instance of {} -> code {}", vals[k - 1], types[i - 1], e["got"])));
   }
   for fail in out.tagged("LAWFAIL") {
     let law = fail["law"].as_str().unwrap_or("?").to_string();
